@@ -43,10 +43,14 @@ def impl_checks(chk, case, out):
     if out is None:
         return probs
     # locate resid blocks
-    idx = [i for i, l in enumerate(out) if l.startswith("ex ")]
+    # (a `resid none` line stands for a resid request after a failed factorisation: nothing was solved)
+    idx = [(i if l.startswith("ex ") else None) for i, l in enumerate(out) if l.startswith("ex ") or l == "resid none"]
     if meta.get("kind") == "rand":
         exact = (not meta["refine"]) and meta["be"] != 0
         for bi, i in enumerate(idx):
+            if i is None:
+                chk.add("resid_after_failed_factorisation")
+                continue
             nrm = resid_norm(out, i)
             chk.add("resid_blocks")
             # after the data change (blocks 2,3) exactness is only claimed when the option mask covers what changed
@@ -62,6 +66,9 @@ def impl_checks(chk, case, out):
             # reduced matrix is (by design of update_data) not the current system, so the full-system residual is
             # not the quantity the refinement loop monitors
             if pi >= 2 and not meta["covered"]:
+                continue
+            if a is None or b is None:
+                chk.add("resid_after_failed_factorisation")
                 continue
             n0, n1 = resid_norm(out, a), resid_norm(out, b)
             chk.add("refine_pairs")
